@@ -2,6 +2,7 @@
 mod conc;
 mod crash;
 mod frag;
+mod prog;
 mod shm;
 mod util;
 mod vanish;
@@ -18,6 +19,7 @@ fn main() {
     match args[1].as_str() {
         "frag" => frag::run(),
         "conc" => conc::run(),
+        "prog" => prog::run(),
         "vanish" => vanish::run(),
         "crash" => crash::run(),
         "shm" => shm::run(),
